@@ -17,7 +17,7 @@ EXHAUSTIVE = True
 RULE = (
     "Fault enumeration: every valid base description (n_dim 1-4, 9 conditional_on structures, each of the 7 shipped families as carrier of the "
     "affected variable) x every catalogue entry (missing distribution; conditional without parameters; unknown key; unknown parameter name; "
-    "parameter both fixed and dependent; parameter neither; first variable conditional; conditional_on = self / later / non-existent / negative / "
+    "parameter both fixed and dependent (also when fixed at the legitimate value 0); parameter neither; first variable conditional; conditional_on = self / later / non-existent / negative / "
     "non-integer; data with n_dim+-1 columns; fit_descriptions of wrong length / without method / unknown method; unknown EW weight keyword / "
     "non-iterable weights; HDC limits of wrong length, limit entries of length 1 / 3 / scalar, deltas of wrong length; NaN / inf evaluation points; "
     "1-D and 3-D models for the 2-D-only contours; non-model for IFORM; unknown slicer keyword; unknown / non-callable reference; too few intervals) "
@@ -108,8 +108,22 @@ def f_unknown_param(S, pos):
     S["descs"][pos]["parameters"]["not_a_parameter"] = _dep_fn()
 
 
+ZERO_OK = {"LogNormal": "mu", "Normal": "mu", "VonMises": "mu", "Weibull": "gamma"}  # parameters that may legitimately be fixed at 0
+
+
 def f_both_fixed_and_dependent(S, pos):
     d = S["descs"][pos]
+    fam = S["families"][pos]
+    if S.get("variant") == "zero":
+        # the doubly defined parameter is fixed at the legitimate value 0 (or 0.0)
+        zname = ZERO_OK[fam]
+        names = list(PARAMS[fam].keys())
+        dep_names = [k for k in names if k != zname][:1]
+        fixed = {k: PARAMS[fam][k] for k in names if k not in dep_names and k != zname}
+        fixed[zname] = 0 if pos % 2 else 0.0
+        d["distribution"] = build.dist(fam, None, fixed)
+        d["parameters"] = {dep_names[0]: _dep_fn(PARAMS[fam][dep_names[0]]), zname: _dep_fn(0.5)}
+        return
     fixed_name = next(k for k in d["distribution"].parameters if k not in d["parameters"])
     d["parameters"][fixed_name] = _dep_fn(float(d["distribution"].parameters[fixed_name]))
 
@@ -178,7 +192,7 @@ reg("missing_distribution", "model", lambda st, p, fam: True, f_missing_distribu
 reg("conditional_without_parameters", "model", lambda st, p, fam: st[p] is not None, f_cond_without_parameters)
 reg("unknown_key", "model", lambda st, p, fam: True, f_unknown_key)
 reg("unknown_parameter_name", "model", lambda st, p, fam: st[p] is not None, f_unknown_param)
-reg("both_fixed_and_dependent", "model", lambda st, p, fam: st[p] is not None, f_both_fixed_and_dependent)
+reg("both_fixed_and_dependent", "model", lambda st, p, fam: st[p] is not None, f_both_fixed_and_dependent, variants=["nonzero", "zero"])
 reg("parameter_neither", "model", lambda st, p, fam: st[p] is not None and len(PARAMS[fam]) >= 2, f_neither)
 reg("first_variable_conditional", "model", lambda st, p, fam: p == 0, f_first_conditional, variants=[0, 1])
 reg("conditional_on", "model", lambda st, p, fam: st[p] is not None, f_cond_on, variants=["self", "later", "nonexistent", "negative", "float", "str"])
@@ -253,7 +267,7 @@ def check_model_fault(case, ctx):
         fault["apply"](S, p)
     out, obj = run_stage(S, stage)
     if out == "result":
-        kinds = "+".join(sorted({FAULTS[f[0]]["name"] + (f":{f[1]}" if FAULTS[f[0]]["name"] in ("conditional_on", "ew_weights", "unknown_fit_method") else "") for f in faults}))
+        kinds = "+".join(sorted({FAULTS[f[0]]["name"] + (f":{f[1]}" if FAULTS[f[0]]["name"] in ("conditional_on", "ew_weights", "unknown_fit_method", "both_fixed_and_dependent") else "") for f in faults}))
         ctx.violation(f"accepted:{kinds}", f"structure={structure} carrier={carrier} faults={label}: no exception was raised; {stage} produced {type(obj).__name__}")
     else:
         documented = (ValueError, TypeError, RuntimeError, NotImplementedError, KeyError)
@@ -279,6 +293,8 @@ def enum_model_faults(tier, shard, nshards):
                             continue
                         for v in fault["variants"]:
                             if fault["name"] == "conditional_on" and resolve_variant(fault, v, st_, pos) is None:
+                                continue
+                            if fault["name"] == "both_fixed_and_dependent" and v == "zero" and carrier not in ZERO_OK:
                                 continue
                             singles.append([fi, v, pos])
                     for s in singles:
